@@ -343,11 +343,18 @@ def pickseq(rng, seq):
 def rand_ref(rng, box, nd):
     if rng.random() < 0.45:
         return None
+    if nd == 1 and rng.random() < 0.25:
+        # the origin in its *falsy* scalar forms (round 6, C13-11)
+        return gen.pick(rng, [0, 0.0, np.float64(0.0)])
     edges = box.hi - box.lo
     far = 10.0 ** rng.uniform(-1, 3) if rng.random() < 0.3 else 1.0
     R = box.centre + rng.uniform(-1, 1, nd) * edges * far
     if rng.random() < 0.15:
         R = box.lo.copy()  # a corner
+    elif rng.random() < 0.1:
+        R = np.zeros(nd)  # the origin
+    if nd == 1 and rng.random() < 0.3:
+        return float(R[0])  # the scalar form of a one-dimensional point
     return pickseq(rng, R.tolist())
 
 
